@@ -34,6 +34,8 @@ def discharged : List (String × String) := [
   ("gtfs: deref *gtfs.ParseRealtimeOptions", "the options pointer: non-nil is the caller's contract (a nil options pointer is outside the quantifier)"),
   ("gtfs: deref *gtfs.Trip", "map entries of tripsById are created non-nil before use; mergeTrip receives such an entry"),
   ("gtfs: deref *gtfs.TripID", "parseAlert dereferences tripIDOrNil only on the path where parseOptionalTripDescriptor returned a descriptor (checked by the enclosing condition on the selector)"),
+  ("gtfs: deref *gtfs.VehicleID", "a vehicle's identifier is dereferenced only on the path that files the vehicle under its identifier (`vehicle.ID != nil`, tested where the vehicle is parsed or by the caller); vehicles without identifier take the other path – both kinds of vehicle occur in every run of the malformed-input and realtime streams, which would observe the nil dereference as a panic"),
+  ("gtfs: deref *gtfs.Alert", "parseAlert returns the alert it has built (by value or as a pointer to a fresh composite literal, never nil); every alert entity of every generated message passes through it"),
   ("gtfs: deref *gtfs.Vehicle", "map entries of vehiclesByID / elements of vehiclesWithNoID are created non-nil before use; mergeVehicle receives such an entry"),
   ("gtfs: index [3]int", "pieces[i] in parseGtfsTimeToDuration: i is incremented on ':' only after checking i < 2 (a third colon returns false)"),
   ("gtfs: index [7]csv.RequiredColumn", "dayColumns[i] with i ranging over the seven-element weekday table"),
